@@ -21,7 +21,7 @@ variable {σ : Type}
 
 theorem ascFrom_mono {a b : Nat} (hab : a ≤ b) : ∀ l : List Nat, AscFrom b l → AscFrom a l
   | [], _ => trivial
-  | o :: os, h => ⟨Nat.le_trans hab h.1, h.2⟩
+  | _ :: _, h => ⟨Nat.le_trans hab h.1, h.2⟩
 
 theorem ascFrom_append : ∀ (l1 l2 : List Nat) (s b : Nat), s ≤ b → AscFrom s l1 → (∀ o ∈ l1, o ≤ b) → AscFrom b l2 →
     AscFrom s (l1 ++ l2)
@@ -104,6 +104,7 @@ variable [BEq σ] {chars : Bool}
 
 theorem space_noCtl : isStripCode ' ' = false := by decide
 
+omit [BEq σ] in
 theorem inv_justifyOne (cw : Char → Nat) (w : Nat) (j : Justify) (o : Overflow) (l : Text σ) (h : Inv l) :
     Inv (justifyOne (WVariant.fixed chars) cw w j o l) := by
   cases j with
@@ -212,5 +213,22 @@ theorem wrap_total (cw : Char → Nat) (A : StyleAlg σ) (t : Text σ) (h : Inv 
 
 end
 
+end Wrap
+
+namespace Text
+variable {σ : Type}
+
+/-- `Text.render(console, end=e)` of a consistent text never raises (neither the `ValueError` of `stack.remove` nor
+the `RuntimeError` of `Style.combine(())`), whatever the `end` string. -/
+theorem render_total (t : Text σ) (h : Inv t) (e : List Char) : ∃ segs, t.render e = .ok segs := by
+  obtain ⟨segs, hr, _⟩ := render_view_aux t h
+  unfold render at hr ⊢
+  cases hl : renderLoop t.plain t.styleOf (sortEvs t.events) [] with
+  | error x => rw [hl] at hr; simp [bind, Except.bind] at hr
+  | ok s => exact ⟨_, rfl⟩
+
+end Text
+
+namespace Wrap
 end Wrap
 end RichModel
